@@ -25,8 +25,8 @@ def run():
                                              'obligations_proved': pr['proved'], 'ok': pr['ok'], 'wall_s': round(pr['wall'], 1)}
     if not pr['ok']:
         vlib.log('[c07] WARNING: TLAPS did not re-prove BranchLemma (rc=%s): %s' % (pr['rc'], pr['out'][-300:]))
-    recs = c04.record_vm(ck, wd, ['branch'])
-    lines = recs['branch']
+    recs = c04.record_vm(ck, wd, ['branch', 'interleave'])
+    lines = recs['branch'] + recs['interleave']
     c04.validate_vm(ck, 'c07', lines, 'concretised programs (writers, swaps, non-writers, CBRANCH engineered for 0/1/2 consecutive takes) run by both engines; executed-instruction count of the interpreter equals the count of the TLA+ VM and is <= 3 x program size per iteration')
     runs = [json.loads(l) for l in lines if l.startswith('{"e":"run"')]
     base = {}
